@@ -68,8 +68,11 @@ def scn_compose(ctx):
                 return f_return((v[0], v[1] + k))
             ex = ex.with_flat_map(ffn)
         elif ln == "retry":
-            s_ = ctx.real("sleep%d" % li, lo=0, hi=10)
-            ctx.assume(s_or(s_ == 0, s_ >= 128 * eps))
+            if p.get("symbolic_sleep"):
+                s_ = ctx.real("sleep%d" % li, lo=0, hi=10)
+                ctx.assume(s_or(s_ == 0, s_ >= 128 * eps))
+            else:
+                s_ = 0.5
             ex = ex.with_retry(max_attempts=2, sleep=s_, exception_base=ScriptErr)
         elif ln == "poll":
             def pfn(ds, k=k):
@@ -194,25 +197,30 @@ MUST_REACH = {"*": ["value-checked", "error-checked"]}
 BUDGET = {"quick": 200.0, "thorough": 2400.0}
 
 
+HEAVY = ("retry", "poll", "throttle", "timeout")
+
+
 def plan(tier, seed):
     import random
     q = tier == "quick"
     items = []
+    C = "compose"
     for l1 in LAYERS:
-        items.append(dict(scenario="compose", params=dict(layers=[l1], base="sync"), bounds=dict(P=1 if q else 2)))
-        items.append(dict(scenario="compose", params=dict(layers=[l1], base="pool"), bounds=dict(P=0 if q else 1)))
+        h = l1 in HEAVY
+        items.append(dict(scenario=C, params=dict(layers=[l1], base="sync", script_len=1 if h else 2), bounds=dict(P=1 if q else 2)))
+        items.append(dict(scenario=C, params=dict(layers=[l1], base="pool", script_len=1, nsub=1 if (q and l1 in ("retry", "timeout")) else 2, threads=1 if (q and l1 in ("retry", "timeout")) else 2), bounds=dict(P=0)))
+    items.append(dict(scenario=C, params=dict(layers=["retry"], base="sync", script_len=1, nsub=1, threads=1, symbolic_sleep=True), bounds=dict(P=0 if q else 1)))
     for l1, l2 in itertools.product(LAYERS, LAYERS):
-        items.append(dict(scenario="compose", params=dict(layers=[l1, l2], base="sync", script_len=1), bounds=dict(P=0 if q else 1)))
-        if q:
-            items.append(dict(scenario="compose", params=dict(layers=[l1, l2], base="pool", script_len=1, nsub=1, threads=1), bounds=dict(P=0)))
-        else:
-            items.append(dict(scenario="compose", params=dict(layers=[l1, l2], base="pool", script_len=1), bounds=dict(P=0)))
-    items.append(dict(scenario="compose", params=dict(layers=["flat_map"], base="pool", flat_async=True), bounds=dict(P=0 if q else 1)))
+        nh = (l1 in HEAVY) + (l2 in HEAVY)
+        items.append(dict(scenario=C, params=dict(layers=[l1, l2], base="sync", script_len=1, nsub=1 if (nh == 2 and q) else 2, threads=1 if (nh == 2 and q) else 2), bounds=dict(P=0)))
+        if not q or nh <= 1:
+            items.append(dict(scenario=C, params=dict(layers=[l1, l2], base="pool", script_len=1, nsub=1, threads=1), bounds=dict(P=0)))
+    items.append(dict(scenario=C, params=dict(layers=["flat_map"], base="pool", flat_async=True, script_len=1), bounds=dict(P=0 if q else 1)))
     if not q:
         for l3 in itertools.product(LAYERS, LAYERS, LAYERS):
-            items.append(dict(scenario="compose", params=dict(layers=list(l3), base="sync", script_len=1, nsub=1, threads=1), bounds=dict(P=0)))
+            items.append(dict(scenario=C, params=dict(layers=list(l3), base="sync", script_len=1, nsub=1, threads=1), bounds=dict(P=0)))
         rnd = random.Random(seed)
         for d in (4, 5, 6):
             for _ in range(4):
-                items.append(dict(scenario="compose", params=dict(layers=[rnd.choice(LAYERS) for _ in range(d)], base=rnd.choice(["sync", "pool"]), script_len=1, nsub=1, threads=1, beyond_bound=True), bounds=dict(P=0)))
+                items.append(dict(scenario=C, params=dict(layers=[rnd.choice(LAYERS) for _ in range(d)], base=rnd.choice(["sync", "pool"]), script_len=1, nsub=1, threads=1, beyond_bound=True), bounds=dict(P=0)))
     return items
